@@ -75,8 +75,15 @@ Print Assumptions C05_spec_erasures.
     - [compact_fields_okb]: a [#[codec(compact)]] field whose [Compact<..>] type coincides with an
       argument records a type name different from that parameter's name;
     - [box_names_okb]: the recorded type name contains ["Box<"] exactly when the type mentions Box.
-    [registry_ofb] (the boolean the harness evaluates on every interned / compiled program) is
-    sound w.r.t. [RegistryOf] ([C05_registry_ofb_sound]) when the prelude entries carry no docs.
+    [registry_ofb] is sound w.r.t. [RegistryOf] ([C05_registry_ofb_sound]) when the prelude entries
+    carry no docs.  It is the conjunction of [registry_entries_ofb] (every entry is the derive's
+    entry for its label; evaluated on EVERY generated case as [corr_registry_of], Corr/RunC05.v, with
+    the labels of the harness interner, which the thorough tier compares with scale-info's real
+    derive) and [labels_injectiveb] ([C05_registry_ofb_split]).  The second conjunct is FALSE of
+    real registries in which scale-info registered one type twice (it interns by the TypeId of one
+    [Identity] step: [Vec<Box<T>>] next to [Vec<T>], [Box<Vec<T>>] next to [Vec<T>], ..): on those
+    [RegistryOf] does not hold and the theorems below say nothing (counted per run as
+    [hyp_identity_duplicates]).
     NOT proved: the Coq re-implementation of the harness interner ([intern_program]). *)
 From V Require Import Base.Result Model.Settings Model.TypePath Model.Generate Model.Equal Model.WellFormed Model.Shape
   Model.ProgramSkel Model.ProgramTeq Model.ProgramExamples
@@ -259,6 +266,24 @@ Theorem C05_registry_ofb_sound :
     registry_ofb defs labels r = true -> prelude_nodocs_b r = true -> RegistryOf defs (label_at labels) r.
 Proof. exact registry_ofb_sound. Qed.
 Print Assumptions C05_registry_ofb_sound.
+
+(** what [corr_registry_of] (Corr/RunC05.v) establishes on every generated case: the first two
+    clauses of [RegistryOf] - every labelled id has the derive's entry for its label, the
+    unlabelled entries are the bit-order markers *)
+Theorem C05_registry_entries_ofb_sound :
+  forall defs labels r,
+    registry_entries_ofb defs labels r = true -> prelude_nodocs_b r = true ->
+    (forall id c, label_at labels id = Some c ->
+       exists t, resolve r id = Some t /\ entry_of defs (label_at labels) r c t) /\
+    (forall id t, resolve r id = Some t -> label_at labels id = None -> exists lsb, order_marker lsb t).
+Proof. exact registry_entries_ofb_sound. Qed.
+Print Assumptions C05_registry_entries_ofb_sound.
+
+Theorem C05_registry_ofb_split :
+  forall defs labels r,
+    registry_ofb defs labels r = registry_entries_ofb defs labels r && labels_injectiveb labels.
+Proof. reflexivity. Qed.
+Print Assumptions C05_registry_ofb_split.
 
 (** non-vacuity on the prelude part of the fragment:
     [a::Bar<T> { A(Option<T>, BTreeMap<u8, T>), B { bits: BitVec<u8, Lsb0>, c: Cow<'static, Vec<T>> } }]
